@@ -175,3 +175,19 @@ Proof.
     intro M. exists pm', x, y. auto.
   - intros (pm & x & y & A & B & C & D & M). rewrite A, B, C, D, String.eqb_refl. exact M.
 Qed.
+
+Lemma h264_exact_bytes needle c :
+  is_h264 needle = true -> is_h264 c = true ->
+  (Codec.exact_ok needle c = true <->
+   exists pm x y, pmode_of needle = Some pm /\ pmode_of c = Some pm /\
+     plid_of needle = Some x /\ plid_of c = Some y /\
+     exists x0 x1 xr y0 y1 yr,
+       hex_decode_go x = Some (x0 :: x1 :: xr) /\ hex_decode_go y = Some (y0 :: y1 :: yr) /\
+       x0 = y0 /\ x1 = y1).
+Proof.
+  intros Hn Hc. rewrite (h264_exact_iff needle c Hn Hc). split.
+  - intros (pm & x & y & A & B & C & D & M). exists pm, x, y. repeat split; auto.
+    now apply plid_match_iff.
+  - intros (pm & x & y & A & B & C & D & M). exists pm, x, y. repeat split; auto.
+    now apply plid_match_iff.
+Qed.
